@@ -153,6 +153,10 @@ func init() {
 									// reverse-proxy off: the header must be ignored
 									req.Header.Set("X-Forwarded-Uri", "/foo/a.js")
 									req.Header.Set("X-Other", q)
+									// headers other proxies use to override method / URL must have no influence either
+									ov := []string{"X-Forwarded-Method", "X-Http-Method-Override", "X-Http-Method", "X-Method-Override", "X-Original-Method", "X-Original-Uri", "X-Original-Url", "X-Rewrite-Url", "X-Forwarded-Path", "X-Forwarded-Prefix"}
+									h := ov[(qi+len(rawPath)+ci)%len(ov)]
+									req.Header.Set(h, []string{"GET", "POST", "OPTIONS", "/foo/a.js", "/api/x"}[(qi+ci)%5])
 								}
 								req = middlewareapi.AddRequestScope(req, &middlewareapi.RequestScope{ReverseProxy: rp})
 								got := p.IsAllowedRequest(req)
